@@ -428,6 +428,18 @@ func searchRect(obj geojson.Object) geometry.Rect {
 	rect := obj.Rect()
 	circle, ok := obj.(*geojson.Circle)
 	if !ok {
+		// circles nested in a feature or a collection count too: the tests
+		// between two circles compare centre distances, not boxes
+		switch o := obj.(type) {
+		case *geojson.Feature:
+			return unionRect(rect, searchRect(o.Base()))
+		case geojson.Collection:
+			for _, child := range o.Children() {
+				if child != nil && !child.Empty() {
+					rect = unionRect(rect, searchRect(child))
+				}
+			}
+		}
 		return rect
 	}
 	const earthRadius = 6371e3 // same sphere as geo.Haversine
@@ -467,6 +479,27 @@ func searchRect(obj geojson.Object) geometry.Rect {
 	rect.Max.X = nanmax(rect.Max.X, maxLon)
 	rect.Max.Y = nanmax(rect.Max.Y, math.Min(maxLat, 90))
 	return rect
+}
+
+// unionRect returns the smallest rectangle containing both; NaN components
+// (see searchRect) are ignored.
+func unionRect(a, b geometry.Rect) geometry.Rect {
+	pick := func(x, y float64, less bool) float64 {
+		switch {
+		case math.IsNaN(x):
+			return y
+		case math.IsNaN(y):
+			return x
+		case (x < y) == less:
+			return x
+		}
+		return y
+	}
+	a.Min.X = pick(a.Min.X, b.Min.X, true)
+	a.Min.Y = pick(a.Min.Y, b.Min.Y, true)
+	a.Max.X = pick(a.Max.X, b.Max.X, false)
+	a.Max.Y = pick(a.Max.Y, b.Max.Y, false)
+	return a
 }
 
 func (c *Collection) geoSparse(
